@@ -15,4 +15,7 @@ def build(reg):
     specs += naming.add_naming(reg)
     specs += record.add_delete_files(reg)  # what mode 'w' removes
     specs += [x for x in ublock.add_ublock(reg) if x.qual.endswith('.load')]  # which bytes a block is parsed from
-    return {"verify": specs, "lemmas": [("next-patch-file-is-found-by-name", naming.lemma_next_patch_is_found)], "trusted": hashing.TRUSTED + [record.T1_OPEN, record.T5_UB, "T4 list.sort(key) yields a permutation ascending in the key"] + findfiles.T_FIND + naming.T_NAMES, "assumptions": ["the view is a function of the files' content and their order only (IH5 nodes hold no other state): with the proved order-independence of _open any permutation of the file list gives the same record", "__init__ is verified against stubs that log which of find_files/_create/_open/create_patch are called; their own contracts are C02/C04 obligations"]}
+    from . import oneliners
+
+    specs = specs + oneliners.add_oneliners(reg, props=("C03",))  # one- and two-line delegations, verified against what other contracts bind them to
+    return {"verify": specs, "lemmas": [("next-patch-file-is-found-by-name", naming.lemma_next_patch_is_found)], "trusted": oneliners.T_ONE + hashing.TRUSTED + [record.T1_OPEN, record.T5_UB, "T4 list.sort(key) yields a permutation ascending in the key"] + findfiles.T_FIND + naming.T_NAMES, "assumptions": ["the view is a function of the files' content and their order only (IH5 nodes hold no other state): with the proved order-independence of _open any permutation of the file list gives the same record", "__init__ is verified against stubs that log which of find_files/_create/_open/create_patch are called; their own contracts are C02/C04 obligations"]}
